@@ -185,8 +185,14 @@ def total_on_dumps(R, rnd):
              ["tuple", [["list", [["int", 1], ["str", "x"]]],
                         ["dict", [[["str", "a"], ["ref", 0]], [["int", 3], ["slice", ["int", 1], ["none"], ["int", 2]]]]],
                         ["partial", "np.add", [["int", 1]], []], ["ref", 0]]],
-             # C13-F1 (open): a rank-0 object array is dumped with the cell's state in place of a list: get_tree raises AttributeError
-             ["objarray", [], [["userobj", "Plain", [["attr", ["bytes", "00ff10"]], ["key_types", ["int", 1]]]]]]]
+             # C13-F1 (repaired): a rank-0 object array was dumped with the cell's state in place of a list: get_tree raised
+             # AttributeError.  The former witness and the witnesses of coq/props/C13.v:C13_total_nonvacuous_objarr_ranks (rank 0
+             # holding a list, shape (2,2) of lists, shape (2,0)) must be visualized in all nine combinations
+             ["objarray", [], [["userobj", "Plain", [["attr", ["bytes", "00ff10"]], ["key_types", ["int", 1]]]]]],
+             ["objarray", [], [["list", [["int", 1], ["int", 2]]]]], ["objarray", [], [["int", 3]]],
+             ["objarray", [2, 2], [["list", [["int", 1], ["int", 2]]], ["list", [["int", 3], ["int", 4]]],
+                                   ["list", [["int", 5], ["int", 6]]], ["list", [["int", 7], ["int", 8]]]]],
+             ["list", [["objarray", [2, 0], []], ["objarray", [0, 2], []], ["objarray", [], [["tuple", []]]]]]]
     specs += [GV.gen_value(rnd, supported=(i % 2 == 0)) for i in range(n)]
     shards = 8
     from concurrent.futures import ThreadPoolExecutor
